@@ -300,7 +300,9 @@ func genC15(r *hx.R, tier string, _ string) (*hx.Suite, error) {
 		}
 		s.Add(c15Parse(pm, "parse"))
 		// full round trip: update then parse
-		if m2, err := cdi.UpdateAnnotations(copyMap(m), pl, id, ds); err == nil {
+		var m2 map[string]string
+		var uerr error
+		if p, _ := hx.Guard(func() { m2, uerr = cdi.UpdateAnnotations(copyMap(m), pl, id, ds) }); !p && uerr == nil {
 			s.Add(c15Parse(m2, "update-then-parse"))
 		}
 	}
